@@ -40,7 +40,22 @@ Ltac inst_nats :=
 Ltac crush2 := intros; unfold pre_index, in_first, upd in *; simpl in *; eqb_cases; inl; try subst;
   try (apply orb_true_iff; left);
   inst_nats;
+  rewrite ?app_length in *; simpl in *;
+  repeat match goal with Heq : pend _ _ = _ :: _ |- _ => rewrite Heq in *; clear Heq end; simpl in *;
+  repeat match goal with
+  | |- In _ (remove_nat _ _) => apply in_remove_nat; split
+  | |- In _ (_ ++ [_]) => apply in_app_iff; simpl
+  end;
   try solve [intuition (try congruence; try lia; eauto 2)].
+Lemma nodup_snoc_nat : forall (l : list nat) k, NoDup l -> ~ In k l -> NoDup (l ++ [k]).
+Proof.
+  intros l k; induction l as [|x l IH]; simpl; intros H Hn.
+  - constructor; auto.
+  - inversion H; subst. constructor.
+    + rewrite in_app_iff; simpl. intros [Hx|[Hx|[]]]; [contradiction | subst; apply Hn; auto].
+    + apply IH; auto.
+Qed.
+
 Ltac enter0 H := step_cases H; unfold touch, set_o, set_w; simpl.
 
 
@@ -51,8 +66,7 @@ Proof.
   intros lim s l s' H  I. enter0 H.
   all: try solve [timeout 10 crush].
   all: try solve [timeout 30 crush2].
-  all: match goal with |- _ => idtac "LEFT nb_o" end.
-Abort.
+Qed.
 
 Lemma st_ung : forall lim s l s', gstep lim s l = Some s' ->
   KInv s ->
@@ -62,8 +76,10 @@ Proof.
   intros lim s l s' H HK  I. destruct HK. enter0 H.
   all: try solve [timeout 10 crush].
   all: try solve [timeout 30 crush2].
-  all: match goal with |- _ => idtac "LEFT ung" end.
-Abort.
+  intros o1; unfold upd; destruct (Nat.eqb_spec o1 o) as [->|Hne]; simpl.
+  - intros _ Hg. apply negb_false_iff in Hg. apply orb_true_iff; left. apply k_open; [exact Hg | eapply k_nbw; eauto].
+  - intros; apply orb_true_iff; left; eauto.
+Qed.
 
 Lemma st_early : forall lim s l s', gstep lim s l = Some s' ->
   KInv s ->
@@ -73,8 +89,10 @@ Proof.
   intros lim s l s' H HK  I. destruct HK. enter0 H.
   all: try solve [timeout 10 crush].
   all: try solve [timeout 30 crush2].
-  all: match goal with |- _ => idtac "LEFT early" end.
-Abort.
+  intros o1; unfold upd; destruct (Nat.eqb_spec o1 o) as [->|Hne]; simpl; [|auto].
+  intros _ He. apply andb_true_iff in He; destruct He as [Hx Hl]. apply negb_true_iff in Hl.
+  rewrite (is_on_false_rtog s r (k_rt r H Hx Hl)), Hx. reflexivity.
+Qed.
 
 Lemma st_ot : forall lim s l s', gstep lim s l = Some s' ->
   (forall o, mk (ost s o) = true -> pre_index (ph (ost s o)) -> In o (otog s)) ->
@@ -83,8 +101,7 @@ Proof.
   intros lim s l s' H  I. enter0 H.
   all: try solve [timeout 10 crush].
   all: try solve [timeout 30 crush2].
-  all: match goal with |- _ => idtac "LEFT ot" end.
-Abort.
+Qed.
 
 Lemma st_busy : forall lim s l s', gstep lim s l = Some s' ->
   (forall r o, busy (wst s r) = Some o -> in_first (ph (ost s o)) /\ kind (ost s o) = r) ->
@@ -93,8 +110,7 @@ Proof.
   intros lim s l s' H  I. enter0 H.
   all: try solve [timeout 10 crush].
   all: try solve [timeout 30 crush2].
-  all: match goal with |- _ => idtac "LEFT busy" end.
-Abort.
+Qed.
 
 Lemma st_chk : forall lim s l s', gstep lim s l = Some s' ->
   (forall o, ph (ost s o) <> PNew -> won (wst s (kind (ost s o))) = true) ->
@@ -105,8 +121,7 @@ Proof.
   intros lim s l s' H D0 D1 I. enter0 H.
   all: try solve [timeout 10 crush].
   all: try solve [timeout 30 crush2].
-  all: match goal with |- _ => idtac "LEFT chk" end.
-Abort.
+Qed.
 
 Lemma st_chk_e : forall lim s l s', gstep lim s l = Some s' ->
   (forall o, ph (ost s o) <> PNew -> won (wst s (kind (ost s o))) = true) ->
@@ -117,8 +132,12 @@ Proof.
   intros lim s l s' H D0 D1 I. enter0 H.
   all: try solve [timeout 10 crush].
   all: try solve [timeout 30 crush2].
-  all: match goal with |- _ => idtac "LEFT chk_e" end.
-Abort.
+  intros o1; unfold upd; destruct (Nat.eqb_spec o1 o) as [->|Hne]; simpl.
+  - rewrite Nat.eqb_refl; simpl. intros _ He. apply andb_true_iff in He; destruct He as [Hx Hl].
+    apply negb_true_iff in Hl. auto.
+  - intros Hp He. destruct (I o1 Hp He) as [Ha Hb]. split; [exact Ha|].
+    destruct (Nat.eqb_spec (kind (ost s o1)) r) as [e|e]; simpl; [rewrite <- e; exact Hb | exact Hb].
+Qed.
 
 Lemma st_k1 : forall lim s l s', gstep lim s l = Some s' ->
   (forall o, In o (otog s) -> pre_index (ph (ost s o))) ->
@@ -127,8 +146,7 @@ Proof.
   intros lim s l s' H  I. enter0 H.
   all: try solve [timeout 10 crush].
   all: try solve [timeout 30 crush2].
-  all: match goal with |- _ => idtac "LEFT k1" end.
-Abort.
+Qed.
 
 Lemma st_k4 : forall lim s l s', gstep lim s l = Some s' ->
   (forall r, nrun s r + List.length (pend s r) <= nseen s r) ->
@@ -137,19 +155,30 @@ Proof.
   intros lim s l s' H  I. enter0 H.
   all: try solve [timeout 10 crush].
   all: try solve [timeout 30 crush2].
-  all: match goal with |- _ => idtac "LEFT k4" end.
-Abort.
+  - intro r0; unfold upd; destruct (Nat.eqb_spec r0 (kind (ost s o))) as [->|Hne]; [|apply I].
+    specialize (I (kind (ost s o))). rewrite Heql in I. simpl in *. lia.
+  - intro r0; unfold upd; destruct (Nat.eqb_spec r0 (kind (ost s o))) as [->|Hne]; [|apply I].
+    specialize (I (kind (ost s o))). lia.
+Qed.
 
 Lemma st_k5 : forall lim s l s', gstep lim s l = Some s' ->
+  (forall r o, busy (wst s r) = Some o -> in_first (ph (ost s o)) /\ kind (ost s o) = r) ->
   (forall r, NoDup (pend s r)) ->
   (forall r o, In o (pend s r) -> ph (ost s o) = PQueued /\ kind (ost s o) = r) ->
   forall r o, In o (pend s' r) -> ph (ost s' o) = PQueued /\ kind (ost s' o) = r.
 Proof.
-  intros lim s l s' H D0 I. enter0 H.
+  intros lim s l s' H D0 D1 I. enter0 H.
   all: try solve [timeout 10 crush].
   all: try solve [timeout 30 crush2].
-  all: match goal with |- _ => idtac "LEFT k5" end.
-Abort.
+  subst n. intros r0 o1; unfold upd. destruct (Nat.eqb_spec r0 (kind (ost s o))) as [->|Hne].
+  - intro Hin. assert (Hin' : In o1 (pend s (kind (ost s o)))) by (rewrite Heql; right; exact Hin).
+    destruct (Nat.eqb_spec o1 o) as [->|Hno]; simpl.
+    + exfalso. specialize (D1 (kind (ost s o))). rewrite Heql in D1. inversion D1; subst. contradiction.
+    + apply I; exact Hin'.
+  - intro Hin. destruct (Nat.eqb_spec o1 o) as [->|Hno]; simpl.
+    + destruct (I _ _ Hin) as [_ Hk]. exfalso; apply Hne; symmetry; exact Hk.
+    + apply I; exact Hin.
+Qed.
 
 Lemma st_k6 : forall lim s l s', gstep lim s l = Some s' ->
   (forall r o, In o (pend s r) -> ph (ost s o) = PQueued /\ kind (ost s o) = r) ->
@@ -159,19 +188,26 @@ Proof.
   intros lim s l s' H D0 I. enter0 H.
   all: try solve [timeout 10 crush].
   all: try solve [timeout 30 crush2].
-  all: match goal with |- _ => idtac "LEFT k6" end.
-Abort.
+  all: try (intro r0; unfold upd; destruct (Nat.eqb_spec r0 r) as [->|Hne]; [|apply I];
+            apply nodup_snoc_nat; [apply I|]; intro Hin; destruct (D0 _ _ Hin) as [Hq _]; congruence).
+  intro r0; unfold upd; destruct (Nat.eqb_spec r0 (kind (ost s o))) as [->|Hne]; [|apply I].
+  specialize (I (kind (ost s o))). rewrite Heql in I. inversion I; assumption.
+Qed.
 
 Lemma st_k5q : forall lim s l s', gstep lim s l = Some s' ->
+  (forall r o, busy (wst s r) = Some o -> in_first (ph (ost s o)) /\ kind (ost s o) = r) ->
   (forall r o, In o (pend s r) -> ph (ost s o) = PQueued /\ kind (ost s o) = r) ->
   (forall o, ph (ost s o) = PQueued -> In o (pend s (kind (ost s o)))) ->
   forall o, ph (ost s' o) = PQueued -> In o (pend s' (kind (ost s' o))).
 Proof.
-  intros lim s l s' H D0 I. enter0 H.
+  intros lim s l s' H D0 D1 I. enter0 H.
   all: try solve [timeout 10 crush].
   all: try solve [timeout 30 crush2].
-  all: match goal with |- _ => idtac "LEFT k5q" end.
-Abort.
+  subst n. intros o1; unfold upd. destruct (Nat.eqb_spec o1 o) as [->|Hno]; simpl; [discriminate|].
+  intro Hq. pose proof (I o1 Hq) as Hin.
+  destruct (Nat.eqb_spec (kind (ost s o1)) (kind (ost s o))) as [e|e]; [|exact Hin].
+  rewrite e, Heql in Hin. destruct Hin as [Hx|Hx]; [subst; contradiction | exact Hx].
+Qed.
 
 Lemma st_kn : forall lim s l s', gstep lim s l = Some s' ->
   (NoDup (kinds s) /\ forall r, won (wst s r) = true <-> In r (kinds s)) ->
@@ -180,6 +216,327 @@ Proof.
   intros lim s l s' H  I. enter0 H.
   all: try solve [timeout 10 crush].
   all: try solve [timeout 30 crush2].
-  all: match goal with |- _ => idtac "LEFT kn" end.
-Abort.
+  all: destruct I as [Hnd Hiff].
+  - split; [constructor; [rewrite <- Hiff; congruence | exact Hnd]|].
+    intro r0; unfold upd; destruct (Nat.eqb_spec r0 r) as [->|Hne]; simpl.
+    + split; auto.
+    + rewrite Hiff. split; [auto | intros [Hx|Hx]; [congruence | exact Hx]].
+  - split; [exact Hnd|]. intro r0; unfold upd; destruct (Nat.eqb_spec r0 r) as [->|Hne]; simpl; [|apply Hiff].
+    split; [intros _; apply Hiff; assumption | reflexivity].
+  - split; [exact Hnd|]. intro r0; unfold upd; destruct (Nat.eqb_spec r0 r) as [->|Hne]; simpl; apply Hiff.
+  - split; [exact Hnd|]. intro r0; unfold upd; destruct (Nat.eqb_spec r0 r) as [->|Hne]; simpl; apply Hiff.
+Qed.
 
+
+(* ---------- the full invariant ---------- *)
+Record OInv (s : gst) : Prop := mkOInv {
+  o_k : KInv s;
+  o_nb_o : forall o, ph (ost s o) <> PNew -> won (wst s (kind (ost s o))) = true;
+  o_ung : forall o, ph (ost s o) <> PNew -> gated (ost s o) = false -> opened s = true;
+  o_early : forall o, ph (ost s o) <> PNew -> early (ost s o) = true -> mk (ost s o) = true;
+  o_ot : forall o, mk (ost s o) = true -> pre_index (ph (ost s o)) -> In o (otog s);
+  o_busy : forall r o, busy (wst s r) = Some o -> in_first (ph (ost s o)) /\ kind (ost s o) = r;
+  o_chk : forall o, in_first (ph (ost s o)) -> busy (wst s (kind (ost s o))) = Some o;
+  o_chk_e : forall o, ph (ost s o) = PChecked -> early (ost s o) = true ->
+                      listed s (kind (ost s o)) = false /\ windexed (wst s (kind (ost s o))) = true;
+  o_k1 : forall o, In o (otog s) -> pre_index (ph (ost s o));
+  o_k4 : forall r, nrun s r + List.length (pend s r) <= nseen s r;
+  o_k5 : forall r o, In o (pend s r) -> ph (ost s o) = PQueued /\ kind (ost s o) = r;
+  o_k6 : forall r, NoDup (pend s r);
+  o_k5q : forall o, ph (ost s o) = PQueued -> In o (pend s (kind (ost s o)));
+  o_kn : NoDup (kinds s) /\ forall r, won (wst s r) = true <-> In r (kinds s)
+}.
+
+Lemma oinv_init : OInv ginit.
+Proof.
+  constructor; simpl; try exact kinv_init; try (intros; discriminate); try (intros; contradiction);
+    try (intros o H; exfalso; apply H; reflexivity).
+  - intros o [H|H]; discriminate.
+  - intro r; lia.
+  - intro r; constructor.
+  - split; [constructor | intro r; split; [discriminate | tauto]].
+Qed.
+
+Lemma oinv_step : forall lim s l s', OInv s -> gstep lim s l = Some s' -> OInv s'.
+Proof.
+  intros lim s l s' I H. destruct I as [Kk Nbo Ung Ear Ot Bus Chk Chke K1 K4 K5 K6 K5q Kn]. constructor.
+  - exact (kinv_step lim s l s' Kk H).
+  - exact (st_nb_o lim s l s' H Nbo).
+  - exact (st_ung lim s l s' H Kk Ung).
+  - exact (st_early lim s l s' H Kk Ear).
+  - exact (st_ot lim s l s' H Ot).
+  - exact (st_busy lim s l s' H Bus).
+  - exact (st_chk lim s l s' H Nbo Bus Chk).
+  - exact (st_chk_e lim s l s' H Nbo Chk Chke).
+  - exact (st_k1 lim s l s' H K1).
+  - exact (st_k4 lim s l s' H K4).
+  - exact (st_k5 lim s l s' H Bus K6 K5).
+  - exact (st_k6 lim s l s' H K5 K6).
+  - exact (st_k5q lim s l s' H Bus K5 K5q).
+  - exact (st_kn lim s l s' H Kn).
+Qed.
+
+Lemma oinv_run : forall lim tr s s', OInv s -> grun lim s tr = Some s' -> OInv s'.
+Proof.
+  intros lim tr; induction tr as [|l tr IH]; intros s s' HS H; simpl in H.
+  - injection H as <-; exact HS.
+  - destruct (gstep lim s l) as [s1|] eqn:E; [|discriminate]. eapply IH; [eapply oinv_step; eauto | exact H].
+Qed.
+
+Lemma reachable_oinv : forall lim tr s, grun lim ginit tr = Some s -> OInv s.
+Proof. intros lim tr s H. exact (oinv_run lim tr ginit s oinv_init H). Qed.
+
+(* ---------- safety: an empty toggle set means the operator IS ready ---------- *)
+Lemma on_ready : forall s, OInv s -> is_on s = true -> Ready s.
+Proof.
+  intros s I Hon. destruct I as [Kk Nbo Ung Ear Ot Bus Chk Chke K1 K4 K5 K6 K5q Kn]. destruct Kk.
+  split; [|split].
+  - unfold is_on in Hon. destruct (blocker s); [discriminate | reflexivity].
+  - intros r Hw Hx. destruct (listed s r) eqn:El; [reflexivity|].
+    rewrite (is_on_false_rtog s r (k_rt r Hw Hx El)) in Hon; discriminate.
+  - intros o He. destruct (ph (ost s o)) eqn:Ep; simpl; try reflexivity; exfalso.
+    + destruct (Chke o Ep He) as [Hl Hx].
+      assert (Hw : won (wst s (kind (ost s o))) = true) by (apply Nbo; congruence).
+      rewrite (is_on_false_rtog s _ (k_rt _ Hw Hx Hl)) in Hon; discriminate.
+    + assert (Hm : mk (ost s o) = true) by (apply Ear; congruence).
+      rewrite (is_on_false_otog s o (Ot o Hm (or_introl Ep))) in Hon; discriminate.
+    + assert (Hm : mk (ost s o) = true) by (apply Ear; congruence).
+      rewrite (is_on_false_otog s o (Ot o Hm (or_intror (or_introl Ep)))) in Hon; discriminate.
+    + assert (Hm : mk (ost s o) = true) by (apply Ear; congruence).
+      rewrite (is_on_false_otog s o (Ot o Hm (or_intror (or_intror Ep)))) in Hon; discriminate.
+Qed.
+
+Lemma pass_inv : forall lim s o s', gstep lim s (Pass o) = Some s' ->
+  ph (ost s o) = PWaiting /\ (gated (ost s o) = false \/ is_on s = true).
+Proof.
+  intros lim s o s' H. unfold gstep in H. destruct (step0 lim s (Pass o)) eqn:E; [|discriminate]. simpl in E.
+  destruct (phase_eqb (ph (ost s o)) PWaiting && (negb (gated (ost s o)) || is_on s)) eqn:G; [|discriminate].
+  apply andb_true_iff in G; destruct G as [G1 G2]. apply phase_eqb_eq in G1. split; [exact G1|].
+  apply orb_true_iff in G2; destruct G2 as [G2|G2]; [left; apply negb_true_iff; exact G2 | right; exact G2].
+Qed.
+
+(* C17, second sentence, for a worker that still knows the gate *)
+Theorem gate_safety : forall lim tr s o s',
+  grun lim ginit tr = Some s -> gstep lim s (Pass o) = Some s' -> gated (ost s o) = true -> Ready s.
+Proof.
+  intros lim tr s o s' Hr Hs Hg. destruct (pass_inv lim s o s' Hs) as [_ [Hc|Hon]]; [congruence|].
+  exact (on_ready s (reachable_oinv lim tr s Hr) Hon).
+Qed.
+
+Lemma grun_app : forall lim a b s, grun lim s (a ++ b) = match grun lim s a with Some s1 => grun lim s1 b | None => None end.
+Proof.
+  intros lim a; induction a as [|l a IH]; intros b s; simpl; [reflexivity|].
+  destruct (gstep lim s l); [apply IH | reflexivity].
+Qed.
+
+Lemma gstep_opened : forall lim s l s', gstep lim s l = Some s' ->
+  opened s' = opened s || (is_on s' && Nat.ltb 0 (nblock s')).
+Proof.
+  intros lim s l s' H. unfold gstep in H. destruct (step0 lim s l) as [x|] eqn:E; [|discriminate].
+  simpl in H; injection H as <-.
+  assert (Ho : opened x = opened s).
+  { unfold step0 in E. destruct l; split_ifs E; injection E as <-; reflexivity. }
+  unfold touch; simpl. rewrite Ho. reflexivity.
+Qed.
+
+(* the ghost [opened] is honest: it is set only when an earlier (or the current) state had an empty toggle set *)
+Lemma opened_witness : forall lim tr s, grun lim ginit tr = Some s -> opened s = true ->
+  exists tr1 tr2 s1, tr = tr1 ++ tr2 /\ grun lim ginit tr1 = Some s1 /\ is_on s1 = true /\ 0 < nblock s1.
+Proof.
+  intros lim tr; induction tr as [|l tr IH] using rev_ind; intros s Hr Ho.
+  - simpl in Hr; injection Hr as <-. discriminate.
+  - rewrite grun_app in Hr. destruct (grun lim ginit tr) as [s0|] eqn:E0; [|discriminate].
+    simpl in Hr. destruct (gstep lim s0 l) as [s1|] eqn:E1; [|discriminate]. injection Hr as <-.
+    rewrite (gstep_opened lim s0 l s1 E1) in Ho. apply orb_true_iff in Ho. destruct Ho as [Ho|Ho].
+    + destruct (IH s0 eq_refl Ho) as (tr1 & tr2 & sx & Et & Er & Hon & Hn).
+      exists tr1, (tr2 ++ [l]), sx. rewrite app_assoc, <- Et. auto.
+    + apply andb_true_iff in Ho; destruct Ho as [Hon Hn]. apply Nat.ltb_lt in Hn.
+      exists (tr ++ [l]), [], s1. rewrite app_nil_r. split; [reflexivity|]. split; [|auto].
+      rewrite grun_app, E0. simpl. rewrite E1. reflexivity.
+Qed.
+
+(* C17, second sentence, for every worker: nothing passes before the operator has been ready at least once *)
+Theorem gate_safety_any : forall lim tr s o s',
+  grun lim ginit tr = Some s -> gstep lim s (Pass o) = Some s' ->
+  exists tr1 tr2 s1, tr = tr1 ++ tr2 /\ grun lim ginit tr1 = Some s1 /\ Ready s1 /\ 0 < nblock s1.
+Proof.
+  intros lim tr s o s' Hr Hs. pose proof (reachable_oinv lim tr s Hr) as I.
+  destruct (pass_inv lim s o s' Hs) as [Hp [Hg|Hon]].
+  - assert (Ho : opened s = true) by (apply (o_ung s I o); [congruence | exact Hg]).
+    destruct (opened_witness lim tr s Hr Ho) as (tr1 & tr2 & s1 & Et & Er & Hon & Hn).
+    exists tr1, tr2, s1. split; [exact Et|]. split; [exact Er|]. split; [|exact Hn].
+    exact (on_ready s1 (reachable_oinv lim tr1 s1 Er) Hon).
+  - exists tr, [], s. rewrite app_nil_r. split; [reflexivity|]. split; [exact Hr|]. split; [exact (on_ready s I Hon)|].
+    destruct I as [Kk Nbo _ _ _ _ _ _ _ _ _ _ _ _]. destruct Kk.
+    apply (k_nbw (kind (ost s o))). apply Nbo. congruence.
+Qed.
+
+(* first-seen-early objects do get their toggle: what [early] means in terms of the history *)
+Lemma early_means : forall lim s r o on s', gstep lim s (SeenCheck r o on) = Some s' ->
+  early (ost s' o) = (windexed (wst s r) && negb (listed s r)).
+Proof.
+  intros lim s r o on s' H. unfold gstep in H. destruct (step0 lim s (SeenCheck r o on)) as [x|] eqn:E; [|discriminate].
+  simpl in H; injection H as <-. simpl in E.
+  destruct (won (wst s r) && armed (wst s r) && is_none (busy (wst s r)) && phase_eqb (ph (ost s o)) PNew
+            && eqb on (is_on s)); [|discriminate].
+  injection E as <-. unfold touch, set_o, set_w; simpl. rewrite upd_same. reflexivity.
+Qed.
+
+(* ---------- the gate opens: no toggle is leaked, given enough scheduler slots ---------- *)
+Fixpoint sumf (f : nat -> nat) (ks : list nat) : nat :=
+  match ks with [] => 0 | k :: t => f k + sumf f t end.
+
+Lemma sum_pend_sumf : forall s, sum_pend s = sumf (fun r => List.length (pend s r)) (kinds s).
+Proof. intro s; unfold sum_pend. induction (kinds s); simpl; auto. Qed.
+
+Lemma sumf_ext : forall f g ks, (forall x, In x ks -> g x = f x) -> sumf g ks = sumf f ks.
+Proof.
+  intros f g ks; induction ks as [|k t IH]; intros H; simpl; [reflexivity|].
+  rewrite (H k (or_introl eq_refl)), IH; [reflexivity|]. intros x Hx; apply H; right; exact Hx.
+Qed.
+
+Lemma sumf_dec : forall f g ks r, NoDup ks -> In r ks -> g r < f r -> (forall x, x <> r -> g x = f x) ->
+  sumf g ks < sumf f ks.
+Proof.
+  intros f g ks r; induction ks as [|k t IH]; intros Hnd Hin Hlt Hoth; [contradiction|].
+  inversion Hnd as [|? ? Hnk Hnd']; subst. simpl. destruct Hin as [->|Hin].
+  - rewrite (sumf_ext f g t); [lia|]. intros x Hx. apply Hoth. intro; subst; contradiction.
+  - assert (k <> r) by (intro; subst; contradiction). rewrite (Hoth k H). specialize (IH Hnd' Hin Hlt Hoth). lia.
+Qed.
+
+Lemma touch_measure : forall x, measure (touch x) = measure x.
+Proof. reflexivity. Qed.
+
+Lemma progress_exists : forall lim s, OInv s -> quiescent s -> limit_ok lim s -> is_on s = false ->
+  exists l s', progress_label l = true /\ gstep lim s l = Some s' /\ measure s' < measure s /\
+               quiescent s' /\ limit_ok lim s'.
+Proof.
+  intros lim s I Hq Hl Hoff. destruct I as [Kk Nbo Ung Ear Ot Bus Chk Chke K1 K4 K5 K6 K5q Kn]. destruct Kk.
+  destruct (blocker s) eqn:Eb.
+  { (* the orchestration blocker is still there: spawn_missing_watchers drops it *)
+    exists DropBlocker. eexists. split; [reflexivity|]. split; [unfold gstep, step0; rewrite Eb; reflexivity|].
+    rewrite touch_measure. unfold measure, sum_pend; simpl. rewrite Eb.
+    split; [lia|]. split; [exact Hq | exact Hl]. }
+  destruct (rtog s) as [|r rt] eqn:Er.
+  2:{ (* a kind is not listed yet: its watcher reaches Bookmark.LISTED *)
+    assert (Hw : won (wst s r) = true) by (apply k_k3; first [rewrite Er | idtac]; left; reflexivity).
+    assert (Hb : busy (wst s r) = None).
+    { destruct (busy (wst s r)) as [o|] eqn:E; [|reflexivity].
+      destruct (Bus r o E) as [[Hp|Hp] _]; destruct (Hq o); contradiction. }
+    exists (Listed r). eexists. split; [reflexivity|].
+    split; [unfold gstep, step0; rewrite Hw, Hb; reflexivity|].
+    rewrite touch_measure. unfold measure, sum_pend; simpl. rewrite Eb.
+    assert (Hlt : List.length (remove_nat r (rtog s)) < List.length (rtog s))
+      by (apply remove_nat_length; first [rewrite Er | idtac]; left; reflexivity).
+    split; [lia|]. split; [exact Hq | exact Hl]. }
+  destruct (otog s) as [|o ot] eqn:Eo.
+  { unfold is_on in Hoff. rewrite Eb, Er, Eo in Hoff. discriminate. }
+  assert (Hin : In o (otog s)) by (first [rewrite Eo | idtac]; left; reflexivity).
+  destruct (K1 o (or_introl eq_refl)) as [Hp|[Hp|Hp]]; [destruct (Hq o); contradiction | |].
+  - (* the object with a toggle is still queued: its watcher's scheduler starts the head of the queue *)
+    pose proof (K5q o Hp) as Hpend. set (r := kind (ost s o)) in *.
+    destruct (pend s r) as [|o' rest] eqn:Ep; [contradiction|].
+    assert (Hino' : In o' (pend s r)) by (rewrite Ep; left; reflexivity).
+    destruct (K5 r o' Hino') as [Hp' Hk'].
+    assert (Hlim : match lim with None => true | Some n => Nat.ltb (nrun s r) n end = true).
+    { destruct lim as [n|]; [|reflexivity]. apply Nat.ltb_lt. specialize (K4 r). specialize (Hl r).
+      rewrite Ep in K4. simpl in K4. lia. }
+    exists (Start o'). eexists. split; [reflexivity|]. split.
+    + unfold gstep, step0. rewrite Hk', Ep, Nat.eqb_refl, Hp', Hlim. reflexivity.
+    + rewrite touch_measure. split; [|split].
+      * unfold measure; simpl. rewrite !sum_pend_sumf; simpl.
+        assert (Hdec : sumf (fun r0 => List.length (upd (pend s) r rest r0)) (kinds s)
+                       < sumf (fun r0 => List.length (pend s r0)) (kinds s)).
+        { apply (sumf_dec _ _ _ r); [exact (proj1 Kn) | | |].
+          - apply (proj2 Kn). rewrite <- Hk'. apply Nbo. congruence.
+          - rewrite upd_same, Ep. simpl. lia.
+          - intros x Hx. rewrite upd_other by exact Hx. reflexivity. }
+        unfold set_o; simpl. lia.
+      * intro x. unfold set_o; simpl. unfold upd. destruct (Nat.eqb_spec x o'); simpl; [split; discriminate | apply Hq].
+      * destruct lim; [|exact I]. intro r0. apply Hl.
+  - (* the object with a toggle is being indexed: its processor finishes and drops the toggle *)
+    exists (Indexed o). eexists. split; [reflexivity|]. split.
+    + unfold gstep, step0. rewrite Hp. reflexivity.
+    + rewrite touch_measure. split; [|split].
+      * unfold measure, sum_pend, set_o; simpl.
+        pose proof (remove_nat_length o (otog s) Hin). lia.
+      * intro x. unfold set_o; simpl. unfold upd. destruct (Nat.eqb_spec x o); simpl; [split; discriminate | apply Hq].
+      * destruct lim; [|exact I]. intro r0. apply Hl.
+Qed.
+
+Lemma opens_measure : forall lim n s, OInv s -> quiescent s -> limit_ok lim s -> measure s <= n ->
+  exists tr s', forallb progress_label tr = true /\ grun lim s tr = Some s' /\ is_on s' = true /\
+                quiescent s' /\ limit_ok lim s' /\ (forall r, nseen s' r = nseen s r).
+Proof.
+  intros lim n; induction n as [|n IH]; intros s I Hq Hl Hm.
+  - destruct (is_on s) eqn:Hon.
+    + exists [], s. simpl. split; [reflexivity|]. split; [reflexivity|]. split; [exact Hon|].
+      split; [exact Hq|]. split; [exact Hl|]. intro; reflexivity.
+    + destruct (progress_exists lim s I Hq Hl Hon) as (l & s' & _ & _ & Hlt & _). lia.
+  - destruct (is_on s) eqn:Hon.
+    + exists [], s. simpl. split; [reflexivity|]. split; [reflexivity|]. split; [exact Hon|].
+      split; [exact Hq|]. split; [exact Hl|]. intro; reflexivity.
+    + destruct (progress_exists lim s I Hq Hl Hon) as (l & s1 & Hpl & Hs & Hlt & Hq1 & Hl1).
+      assert (Hm1 : measure s1 <= n) by lia.
+      destruct (IH s1 (oinv_step lim s l s1 I Hs) Hq1 Hl1 Hm1) as (tr & s' & Hf & Hr & Hon' & Hq' & Hl' & Hn').
+      exists (l :: tr), s'. simpl. rewrite Hpl, Hs. split; [exact Hf|]. split; [exact Hr|].
+      split; [exact Hon'|]. split; [exact Hq'|]. split; [exact Hl'|].
+      intro r. rewrite Hn'.
+      (* progress labels spawn and retire nobody *)
+      clear - Hs Hpl. unfold gstep in Hs. destruct (step0 lim s l) as [x|] eqn:E; [|discriminate].
+      simpl in Hs; injection Hs as <-. unfold step0 in E.
+      destruct l; simpl in Hpl; try discriminate; split_ifs E; injection E as <-; reflexivity.
+Qed.
+
+(* From every reachable state in which no watcher is in the middle of a first event, if every watcher's scheduler
+   has at least as many slots as workers alive (or no limit), the operator's own steps — drop the blocker, reach
+   LISTED, start queued workers, finish indexing — lead to an empty toggle set; then every worker at the gate passes. *)
+Theorem gate_opens : forall lim tr s,
+  grun lim ginit tr = Some s -> quiescent s -> limit_ok lim s ->
+  exists tr' s', forallb progress_label tr' = true /\ grun lim s tr' = Some s' /\ is_on s' = true /\
+    (forall o, ph (ost s' o) = PWaiting -> exists s'', gstep lim s' (Pass o) = Some s'').
+Proof.
+  intros lim tr s Hr Hq Hl.
+  destruct (opens_measure lim (measure s) s (reachable_oinv lim tr s Hr) Hq Hl (le_n _))
+    as (tr' & s' & Hf & Hr' & Hon & _).
+  exists tr', s'. split; [exact Hf|]. split; [exact Hr'|]. split; [exact Hon|].
+  intros o Hp. unfold gstep, step0. rewrite Hp, Hon. simpl. rewrite orb_true_r. simpl. eexists; reflexivity.
+Qed.
+
+(* the deadlock, for every limit: a state in which [n] workers of one watcher hold all its slots at the gate while a
+   toggled object of that watcher is still queued never recovers *)
+Theorem stuck_forever : forall n s, Stuck n s ->
+  forall tr s', grun (Some n) s tr = Some s' -> is_on s' = false /\ forall o, ph (ost s' o) <> PPassed.
+Proof.
+  intros n s HS tr s' H. pose proof (stuck_run n tr s s' HS H) as (_ & Hp & _ & _ & (o & Hin & _)).
+  split; [eapply is_on_false_otog; eauto | exact Hp].
+Qed.
+
+(* the hypotheses of [gate_opens] are satisfiable and its conclusion is not trivial *)
+Example gate_opens_nonvacuous :
+  exists s, grun (Some 3) ginit f11_trace = Some s /\ quiescent s /\ limit_ok (Some 3) s /\ is_on s = false.
+Proof.
+  eexists. split; [vm_compute; reflexivity|]. split; [|split; [|vm_compute; reflexivity]].
+  - intro o. do 3 (destruct o as [|o]; [vm_compute; split; discriminate|]). vm_compute; split; discriminate.
+  - intro r. destruct r as [|r]; vm_compute; lia.
+Qed.
+
+(* ... and fail exactly on the F11 state: limit 2 < 3 workers alive *)
+Example gate_opens_guard_fails_on_f11 : ~ limit_ok (Some 2) f11_state.
+Proof. intro H. specialize (H 0). vm_compute in H. lia. Qed.
+
+Example gate_safety_nonvacuous :
+  exists s s', grun (Some 3) ginit (f11_trace ++ [Start 2; Indexed 2]) = Some s /\
+               gstep (Some 3) s (Pass 2) = Some s' /\ gated (ost s 2) = true /\ early (ost s 2) = true.
+Proof. eexists; eexists. split; [vm_compute; reflexivity|]. split; [vm_compute; reflexivity|]. split; vm_compute; reflexivity. Qed.
+
+(* the boolean readings of the trace tie are implied by the hypotheses of gate_opens *)
+Lemma limit_okb_of : forall lim s rs, limit_ok lim s -> limit_okb lim s rs = true.
+Proof.
+  intros [n|] s rs H; simpl; [|reflexivity]. apply forallb_forall. intros r _. apply Nat.leb_le. apply H.
+Qed.
+Lemma quiescentb_of : forall s os, quiescent s -> quiescentb s os = true.
+Proof.
+  intros s os H. apply forallb_forall. intros o _. destruct (H o) as [H1 H2].
+  destruct (ph (ost s o)); simpl; try reflexivity; exfalso; [apply H1 | apply H2]; reflexivity.
+Qed.
